@@ -238,6 +238,7 @@ func checkC13(c *core.Ctx) {
 			return
 		}
 		count := map[string]int{}
+		c.Eval(len(l)) // every listed scale is compared
 		for _, e := range l {
 			m, _ := e.(map[string]any)
 			ks := asStr(m["key"])
